@@ -70,3 +70,6 @@ SPECS["C12"] = dict(level="exploration", assumptions=HIST_ASSUME[:2] + ["'exactl
     rule="seeded histories of 40-130 create / delete / re-create / get / publish / pull / list operations over topics, subscriptions and snapshots in projects and ids that differ by case, prefix and LIKE wildcards (p, P, pq, p_, p%, unicode, blank), every List walked to exhaustion with page sizes {1,2,3,7,100,0,-1} and compared as a multiset with the model's live set of exactly that project; re-created subscriptions are checked for inherited labels/filter/ordering/backlog; plus groups of 2-4 racing creators of one name (topic, subscription, snapshot) under -race. Non-trivial = history with more than 10 answered operations; distinct = distinct operation/answer trace.",
     parts=[dict(name="names", binary="rigv", pkg="rigv", test="TestC12", shards={"quick": 16, "thorough": 16}),
            dict(name="race", binary="rigv", pkg="rigv", test="TestC12race", race=True, shards={"quick": 8, "thorough": 16})])
+
+SPECS["C15"] = hist("TestC15", "three monitors over seeded histories: (a) every prune/expire job (min age 0 / 1 s / 1 h, batch 1 / 2 / 100, spliced at random positions) is followed by a full table diff checked against the job's documented deletion criterion; (b) twin pairs - the same seeded history (probe-sized pulls, no seeks) run with the prune jobs skipped and with them executed must give identical client-visible traces (operation, status, message ids, attempts); (c) after everything was deleted and 8 days passed, rows+2 rounds of all jobs in random order must leave no delivery, message, or soft-deleted row behind and no failing job. Non-trivial = at least one row was deleted by a job; distinct = distinct operation trace.",
+    min_relevant={"quick": 200, "thorough": 2000})
